@@ -138,21 +138,20 @@ Proof.
   - intro Hn. rewrite Ht in Hn. discriminate Hn.
 Qed.
 
-(* (G1) as stated: identity, clock and message in the domain of C12 *)
+(* (G1) as stated: identity and clock in the domain of C12, any message *)
 Theorem commit_succeeds_on_any_staged_difference : forall e msg w c hid s root subs,
   GoodW w -> w_inited w = true -> ctx_of w = Some c ->
   tip_of w = Some hid -> snapshot (w_objs w) hid = Some s -> s <> idx_of w ->
   user_set (x_l c) (x_g c) = true ->
   sign_ok (user_name (x_l c) (x_g c)) (user_email (x_l c) (x_g c)) (e_time e) (e_off e) ->
-  msg_ok msg ->
   write_tree_top (idx_of w) = Some (root, subs) ->
   step (ACmd e (CCommit msg)) w =
   (after_commit e c msg w root subs, OOk [], do_commit_trace e c msg w root subs).
 Proof.
-  intros e msg w c hid s root subs Hg Hi Hx Ht Hs Hne Hu Hso Hm Hw.
+  intros e msg w c hid s root subs Hg Hi Hx Ht Hs Hne Hu Hso Hw.
   apply (commit_succeeds_if_text_reads e msg w c hid s root subs (commit_of e c msg w root));
     try assumption.
-  apply commit_parses; [exact Hso | exact Hm|].
+  apply commit_parses; [exact Hso|].
   intros tip Htip. exact (loaded_tip_length w c tip Hx Htip).
 Qed.
 
@@ -162,13 +161,12 @@ Corollary commit_succeeds_on_any_staged_difference_ex : forall e msg w c hid s,
   tip_of w = Some hid -> snapshot (w_objs w) hid = Some s -> s <> idx_of w ->
   user_set (x_l c) (x_g c) = true ->
   sign_ok (user_name (x_l c) (x_g c)) (user_email (x_l c) (x_g c)) (e_time e) (e_off e) ->
-  msg_ok msg ->
   exists root subs,
     write_tree_top (idx_of w) = Some (root, subs) /\
     step (ACmd e (CCommit msg)) w =
     (after_commit e c msg w root subs, OOk [], do_commit_trace e c msg w root subs).
 Proof.
-  intros e msg w c hid s Hg Hi Hx Ht Hs Hne Hu Hso Hm.
+  intros e msg w c hid s Hg Hi Hx Ht Hs Hne Hu Hso.
   destruct (write_tree_fuel_any (idx_of w)) as [[root subs] Hw].
   exists root, subs. split; [exact Hw|].
   apply (commit_succeeds_on_any_staged_difference e msg w c hid s); assumption.
@@ -183,16 +181,15 @@ Theorem first_commit_succeeds : forall e msg w c root subs,
   valid_branch_name (w_head w) = true ->
   user_set (x_l c) (x_g c) = true ->
   sign_ok (user_name (x_l c) (x_g c)) (user_email (x_l c) (x_g c)) (e_time e) (e_off e) ->
-  msg_ok msg ->
   write_tree_top (idx_of w) = Some (root, subs) ->
   step (ACmd e (CCommit msg)) w =
   (after_commit e c msg w root subs, OOk [], do_commit_trace e c msg w root subs).
 Proof.
-  intros e msg w c root subs Hi Hx Hr Hne Hv Hu Hso Hm Hw.
+  intros e msg w c root subs Hi Hx Hr Hne Hv Hu Hso Hw.
   apply (commit_step e msg w c root subs (commit_of e c msg w root)); try assumption.
   - split; [exact Hu|]. rewrite Hr. exact Hne.
   - intros _. exact Hv.
-  - apply commit_parses; [exact Hso | exact Hm|].
+  - apply commit_parses; [exact Hso|].
     intros tip Htip. exact (loaded_tip_length w c tip Hx Htip).
 Qed.
 
@@ -203,7 +200,6 @@ Theorem commit_succeeds_spec : forall e msg w c hid s root subs,
   tip_of w = Some hid -> snapshot (w_objs w) hid = Some s -> s <> idx_of w ->
   user_set (x_l c) (x_g c) = true ->
   sign_ok (user_name (x_l c) (x_g c)) (user_email (x_l c) (x_g c)) (e_time e) (e_off e) ->
-  msg_ok msg ->
   write_tree_top (idx_of w) = Some (root, subs) ->
   (forall d, In d (subs ++ [root]) -> (lenN d < 2 ^ 63)%N) ->
   (lenN (commit_data e c msg w root) < 2 ^ 63)%N ->
@@ -213,12 +209,12 @@ Theorem commit_succeeds_spec : forall e msg w c hid s root subs,
   c_parents (commit_of e c msg w root) = [hid] /\
   c_msg (commit_of e c msg w root) = msg.
 Proof.
-  intros e msg w c hid s root subs Hg Hi Hx Ht Hs Hne Hu Hso Hm Hw Hsz Hszc w'.
+  intros e msg w c hid s root subs Hg Hi Hx Ht Hs Hne Hu Hso Hw Hsz Hszc w'.
   split; [apply (commit_succeeds_on_any_staged_difference e msg w c hid s); assumption|].
   assert (Htip : forall tip, tip_of w = Some tip -> length tip = 20).
   { intros tip Htip. exact (loaded_tip_length w c tip Hx Htip). }
   destruct Hg as (_ & [_ Hv] & _).
-  destruct (commit_spec_ok e c msg w root subs Hv Hw Hsz Hszc Hso Hm Htip) as (_ & Hpost & Hmsg).
+  destruct (commit_spec_ok e c msg w root subs Hv Hw Hsz Hszc Hso Htip) as (_ & Hpost & Hmsg).
   { apply head_ok_loaded; [exact Hx|]. intro Hn. rewrite Ht in Hn. discriminate Hn. }
   split; [exact Hpost|]. split; [|exact Hmsg].
   unfold commit_of. cbn [c_parents]. rewrite Ht. reflexivity.
@@ -818,7 +814,6 @@ Theorem commit_then_status : forall e msg w c hid s root subs,
   tip_of w = Some hid -> snapshot (w_objs w) hid = Some s -> s <> idx_of w ->
   user_set (x_l c) (x_g c) = true ->
   sign_ok (user_name (x_l c) (x_g c)) (user_email (x_l c) (x_g c)) (e_time e) (e_off e) ->
-  msg_ok msg ->
   write_tree_top (idx_of w) = Some (root, subs) ->
   let w' := after_commit e c msg w root subs in
   w_coll w' = false -> SmallStore (w_objs w') ->
@@ -829,9 +824,9 @@ Theorem commit_then_status : forall e msg w c hid s root subs,
       filter is_staged_line out' = [] /\
       (forall l, In l out' -> is_staged_line l = false).
 Proof.
-  intros e msg w c hid s root subs Hg Hi Hx Ht Hs Hne Hu Hso Hm Hw w' Hc Hsm.
+  intros e msg w c hid s root subs Hg Hi Hx Ht Hs Hne Hu Hso Hw w' Hc Hsm.
   pose proof (commit_succeeds_on_any_staged_difference e msg w c hid s root subs
-                Hg Hi Hx Ht Hs Hne Hu Hso Hm Hw) as Hstep.
+                Hg Hi Hx Ht Hs Hne Hu Hso Hw) as Hstep.
   split; [exact Hstep|].
   destruct (status_after_commit_clean e msg w w' [] _ Hg Hstep Hc Hsm)
     as (_ & _ & _ & c' & cid & cm' & ns' & Hx' & _ & _ & _ & _ & _ & _ & Hst & Hno & _).
@@ -894,8 +889,8 @@ Proof. intros w H E. unfold idx_of in H. rewrite E in H. apply H. reflexivity. Q
    - the context loads (both configuration files and .goitignore read);
    - the current branch has a tip whose snapshot reads as [s];
    - [s] is not the staging area;
-   - an identity is configured, and it, the clock and the message are in the
-     domain of C12.
+   - an identity is configured, and it and the clock are in the domain of C12
+     (the message is any byte string).
    [w_coll w = false] and [SmallStore (w_objs w)] are the two conditions under
    which the invariants are known (no SHA-1 collision met, no stored object of
    2^63 bytes or more) *)
@@ -905,13 +900,12 @@ Theorem history_commit_succeeds : forall w e msg c hid s,
   tip_of w = Some hid -> snapshot (w_objs w) hid = Some s -> s <> idx_of w ->
   user_set (x_l c) (x_g c) = true ->
   sign_ok (user_name (x_l c) (x_g c)) (user_email (x_l c) (x_g c)) (e_time e) (e_off e) ->
-  msg_ok msg ->
   exists root subs,
     write_tree_top (idx_of w) = Some (root, subs) /\
     step (ACmd e (CCommit msg)) w =
     (after_commit e c msg w root subs, OOk [], do_commit_trace e c msg w root subs).
 Proof.
-  intros w e msg c hid s Hr Hc Hsm Hx Ht Hs Hne Hu Hso Hm.
+  intros w e msg c hid s Hr Hc Hsm Hx Ht Hs Hne Hu Hso.
   apply (commit_succeeds_on_any_staged_difference_ex e msg w c hid s); try assumption.
   - apply reachable_good; assumption.
   - apply (reachable_inited w Hr). left. exact (tip_refs_nonempty w hid Ht).
@@ -924,13 +918,12 @@ Theorem history_first_commit_succeeds : forall w e msg c,
   valid_branch_name (w_head w) = true ->
   user_set (x_l c) (x_g c) = true ->
   sign_ok (user_name (x_l c) (x_g c)) (user_email (x_l c) (x_g c)) (e_time e) (e_off e) ->
-  msg_ok msg ->
   exists root subs,
     write_tree_top (idx_of w) = Some (root, subs) /\
     step (ACmd e (CCommit msg)) w =
     (after_commit e c msg w root subs, OOk [], do_commit_trace e c msg w root subs).
 Proof.
-  intros w e msg c Hr Hx Hrf Hne Hv Hu Hso Hm.
+  intros w e msg c Hr Hx Hrf Hne Hv Hu Hso.
   destruct (write_tree_fuel_any (idx_of w)) as [[root subs] Hw].
   exists root, subs. split; [exact Hw|].
   apply first_commit_succeeds; try assumption.
@@ -1080,9 +1073,6 @@ Proof.
   cbn [e_time e_off gx_env]. split; [lia|]. split; [lia | reflexivity].
 Qed.
 
-Example gx_msg_ok : msg_ok gx_msg.
-Proof. apply contains_byte_false. vm_compute. reflexivity. Qed.
-
 (* (G1)/(G4): the theorem applies; and the same outcome by plain computation *)
 Example gx_commit_by_theorem :
   exists root subs,
@@ -1093,7 +1083,7 @@ Example gx_commit_by_theorem :
 Proof.
   exact (history_commit_succeeds gx_w gx_env gx_msg gx_c gx_hid gx_s
            gx_reachable gx_coll gx_small gx_ctx gx_tip gx_snapshot gx_differs
-           gx_user_set gx_sign_ok gx_msg_ok).
+           gx_user_set gx_sign_ok).
 Qed.
 
 Definition gx_step : world * outcome * list effect :=
@@ -1172,7 +1162,6 @@ Proof.
   - vm_compute. reflexivity.
   - vm_compute. reflexivity.
   - exact CommitCmdFacts.ex_sign_ok.
-  - exact CommitCmdFacts.ex_msg_ok.
   - exact ex_tree.
 Qed.
 
